@@ -1,5 +1,6 @@
 import XPathV.Lemmas.C17Base
 import XPathV.Lemmas.ParserTokens
+import XPathV.Lemmas.ScanTail
 /-!
 # C17 — truncated or ill-formed expressions are rejected by Compile (property-level theorems)
 
@@ -12,10 +13,13 @@ an end token and are balanced.  The theorems below are its corollaries for `pars
 `TextToks text ts`: the scanner turns `text` into the token stream `ts` (ending in `.eof`).
 A rejection `∃ e, parse fuel cfg text = .error e` holds for **every** fuel and configuration.
 
-Not covered at token level: a cut after an operator *word* (`and or div mod` are name tokens;
-whether they are operators depends on the position) — covered by `operator_then_end_rejected` at
-the tier loop; the passage from "the text ends with the character `[`" to "the stream ends with
-the token `[`" (true unless the character is inside a string literal) is not proved.
+Character level (`Lemmas/ScanTail.lean`): whatever precedes it, a final character
+`[ ( , @ $ | + = < > ! #` is either the text's last token or sits in a literal that is then
+unclosed — `truncation_rejected` is the corrected truncation statement, for *any* text (valid or
+not) without U+0000 (which the scanner treats as end of input).  Not rejected in general, with the
+exact exceptions proved at token level: a final `/` (`/`, `a | /`), `*` (`a/*`), `-` (a name
+character: `a-`), `.`, and operator *words* (`and or div mod` are name tokens; covered at the
+tier loop by `operator_then_end_rejected`).
 -/
 namespace XPathV.Theorems.C17
 open XPathV XPathV.Model XPathV.Facts XPathV.Lemmas.ParserTokens
@@ -110,5 +114,36 @@ theorem examples_rejected (fuel : Nat) (cfg : PCfg) :
     parse fuel cfg "'abc".toList = .error (.scan .unclosedString) :=
   ⟨ex_cut_lbracket fuel cfg, ex_cut_slash fuel cfg, ex_cut_comma fuel cfg, ex_unclosed_bracket fuel cfg,
    ex_unclosed_paren fuel cfg, ex_unclosed_quote fuel cfg⟩
+
+open XPathV.Lemmas.ScanTail in
+/-- **C17, truncation, character level**: cut any text (without U+0000) right after one of the
+characters `[ ( , @ $ | + = < > ! #` — the result is rejected, for every fuel and configuration.
+No assumption on what precedes the cut: if the character falls inside a string literal, the
+literal is unclosed and the scanner fails. -/
+theorem truncation_rejected (cfg : PCfg) (text : List Char) (hnul : '\x00' ∉ text) (cut : Nat) (hcut : 0 < cut)
+    (hc : ∃ c, text[cut - 1]? = some c ∧ c ∈ cutDelims) (fuel : Nat) :
+    ∃ e, parse fuel cfg (text.take cut) = .error e :=
+  Lemmas.ScanTail.truncation_rejected cfg text hnul cut hcut hc fuel
+
+open XPathV.Lemmas.ScanTail in
+/-- … after `//` -/
+theorem truncation_after_slashslash_rejected (cfg : PCfg) (text : List Char) (hnul : '\x00' ∉ text) (cut : Nat)
+    (h1 : text[cut]? = some '/') (h2 : text[cut + 1]? = some '/') (fuel : Nat) :
+    ∃ e, parse fuel cfg (text.take (cut + 2)) = .error e :=
+  truncation_slashslash_rejected cfg text hnul cut h1 h2 fuel
+
+open XPathV.Lemmas.ScanTail in
+/-- … after an opening quote (a quote character that does not occur before the cut) -/
+theorem truncation_after_quote_rejected (cfg : PCfg) (text : List Char) (hnul : '\x00' ∉ text) (cut : Nat) {q : Char}
+    (hq : isQuote q) (hget : text[cut]? = some q) (hfresh : q ∉ text.take cut) (fuel : Nat) :
+    ∃ e, parse fuel cfg (text.take (cut + 1)) = .error e :=
+  truncation_quote_rejected cfg text hnul cut hq hget hfresh fuel
+
+open XPathV.Lemmas.ScanTail in
+/-- the scanner fact behind it: the last character of a text, when it is one of the delimiter
+characters, is the text's last token (one of `lastToks c`) unless scanning fails -/
+theorem last_character_is_last_token {pre : List Char} {c : Char} (hpre : '\x00' ∉ pre) (hD : c ∈ delims) :
+    ScanFails (pre ++ [c]) ∨ ∃ ts t, t ∈ lastToks c ∧ TextToks (pre ++ [c]) (ts ++ [t, .eof]) :=
+  last_char_tokens hpre hD
 
 end XPathV.Theorems.C17
